@@ -52,6 +52,8 @@ _ODD_ITEMS = [
     "- k:: ", "- foo ::\n  * 991231", "x 240101#ab\n  * 240102\n  * k:: v w", "- foo\n    - k::v\n      + k2::v",
     "- [k::", "- foo [k:: v", "o P1", "- [[a]] [^l] [#g] [@r]", "- 'k::v' \"x", "- foo\n  *\n  * k:: v",
     "- 2024-03-32 foo", "o P1 2024-02-30", "- foo 2023-13-01 k::2024-02-30", "- [^x]", "- a [#o] b", "o [@x] foo", "- [^o]\n  * k:: v", "- [P1]", "- [[o]] [[x]] #o @x", "- [240101#a]", "- #\n- @ x",
+    "- foo\n  * 240620\n  * due:: 240701", "- foo\n  * PROPERTY:\n    - 240620\n    - k:: v", "- 240101#ab\n  * k:: v",
+    "- 2024-01-01\n  * k:: v", "o P1 240101\n  * 240101#ab\n  * k:: v",
     "- ((", "- [k::]", "- [::v]", "- k::[[a]]", "- https://", "- http://o.x/o/x", "x x x", "o o", "- [[a#]] [[#a]]",
 ]
 
@@ -63,7 +65,7 @@ def _case(draw):
     index = draw(st.integers(0, 2)) == 0
     if cls == "a":
         pg = draw(P.page(rich=True, max_headers=3))
-        extra = draw(st.lists(st.sampled_from(_ODD_ITEMS), max_size=3))
+        extra = draw(st.lists(st.sampled_from(_ODD_ITEMS), max_size=5))
         return {"cls": "a", "page": pg, "extra": extra, "today": today, "index": index}
     if cls == "b":
         pg = draw(P.page(rich=draw(st.booleans()), max_headers=3))
